@@ -333,6 +333,15 @@ def run_c14(tier: str, seed: int) -> int:
             except Exception as ex:  # noqa: BLE001
                 rep.violation("Accepts/wide", f"a valid sentence with {len(wt.get('fs', []))} items at the top ({len(wtext)} characters) is rejected: {type(ex).__name__}: {ex}",
                               {"text_head": wtext[:200]})
+        # items that are equal (octet for octet, or after unescaping) are items all the same: and / or are lists, not sets
+        for dtext in ("(&(objectClass=person)(objectClass=person))", "(|(cn=a)(sn=b)(cn=a))", "(|(cn=a)(cn=\\61))", "(&(a=b)(!(a=b))(a=b))", "(|(&(a=b)(a=b))(&(a=b)(a=b)))",
+                      "(&(cn=*)(cn=*)(cn=*))", "(|(a=b*)(a=b*))"):
+            rep.case(dtext)
+            try:
+                fd = sansldap.LDAPFilter.from_string(dtext)
+                codec_events.append(codec.codec_event(M.SearchRequest(8, [], "dc=x", M.SearchScope.SUBTREE, M.DereferencingPolicy.NEVER, 0, 0, False, fd, [])))
+            except Exception as ex:  # noqa: BLE001
+                rep.violation("Accepts/duplicates", f"the sentence {dtext} is rejected: {type(ex).__name__}: {ex}", {"text": dtext})
         validate(rep, wd, events, sigmap, "from_string(sentence) must give the tree the grammar denotes")
         verdicts, gen, dist = C.validate_traces("CodecTrace", "CodecTrace.cfg", codec_events, wd, tag="c14codec", timeout=2400)
         rep.states += dist
